@@ -20,6 +20,8 @@
 #include "fastscapelib/grid/profile_grid.hpp"
 #include "fastscapelib/grid/raster_grid.hpp"
 #include "fastscapelib/grid/trimesh.hpp"
+#include "fastscapelib/eroders/spl.hpp"
+#include "fastscapelib/eroders/diffusion_adi.hpp"
 
 #include "common.hpp"
 #include "world_spec.hpp"
